@@ -202,5 +202,24 @@ func SelfTest() []string {
 			bad = append(bad, fmt.Sprintf("perm toy (prune=%v): expected 6 outcomes, got %v", prune, rp.Outcomes))
 		}
 	}
+	// 7. sharding: the union over shards must cover every outcome, and a seeded bug must be found by some shard
+	union := map[string]bool{}
+	found := false
+	for sh := 0; sh < 3; sh++ {
+		rp := (&Explorer{Name: "toy-perm-shard", Body: perm, Bounds: []int{-1}, Prune: true, Shard: sh, NShards: 3, SplitDepth: 2}).Explore()
+		for o := range rp.Outcomes {
+			union[o] = true
+		}
+		rl := (&Explorer{Name: "toy-lost-update-shard", Body: lost(false), Bounds: []int{0, 1, 2}, Prune: true, Shard: sh, NShards: 3, SplitDepth: 2}).Explore()
+		if rl.FailCounts["lost-update"] > 0 {
+			found = true
+		}
+	}
+	if len(union) != 6 {
+		bad = append(bad, fmt.Sprintf("sharded perm toy: union of outcomes has %d elements, want 6", len(union)))
+	}
+	if !found {
+		bad = append(bad, "sharded lost-update toy: no shard found the seeded bug")
+	}
 	return bad
 }
